@@ -39,9 +39,11 @@ Fail(lbl) == UNCHANGED vars /\ last' = [lbl EXCEPT !.ok = FALSE]
 
 ---------------------------------------------------------------------------
 (* RegisterRNSName, msg_server_register.go *)
-Register(s, n, len, tld, y, data, prim) ==
+\* yp = the chain's own yearly price for this name (exported GetCostOfName), an input of the property;
+\* the model's tariff table Cost(len, tld) is used for the detailed behaviour (a tariff change is drift)
+Register(s, n, len, tld, y, data, prim, yp) ==
   LET lbl  == [a |-> "register", s |-> s, n |-> n, len |-> len, tld |-> tld, y |-> y,
-               data |-> data, prim |-> prim, ok |-> TRUE]
+               data |-> data, prim |-> prim, yp |-> yp, ok |-> TRUE]
       cost == Cost(len, tld) * y
       ex   == Exists(n)
       mine == ex /\ names[n].owner = s
@@ -183,7 +185,7 @@ JumpTargets == {height + 1} \cup UNION {{names[n].exp - 1, names[n].exp, names[n
 
 NextCore ==
   \/ \E s \in Acc, n \in Names, y \in Years, d \in Datas, pr \in BOOLEAN :
-        Register(s, n, NameInfo[n].len, NameInfo[n].tld, y, d, pr)
+        Register(s, n, NameInfo[n].len, NameInfo[n].tld, y, d, pr, Cost(NameInfo[n].len, NameInfo[n].tld))
   \/ \E s \in Acc, n \in Names, p \in Prices : List(s, n, p) \/ Bid(s, n, p)
   \/ \E s \in Acc, n \in Names : Delist(s, n) \/ Buy(s, n) \/ Cancel(s, n)
   \/ \E s \in Acc, n \in Names, r \in Acc : (r # s /\ Transfer(s, n, r)) \/ Accept(s, n, r)
@@ -253,7 +255,7 @@ C16Step ==
   LET l == last' IN
   (l.a = "register") =>
     IF l.ok THEN
-      LET n == l.n  c == Cost(l.len, l.tld) * l.y IN
+      LET n == l.n  c == l.yp * l.y IN
       /\ Delta(l.s, "ujkl") = -c /\ Delta(POL, "ujkl") = c
       /\ \A a \in DOMAIN bal : \A d \in Denoms : (a \notin {l.s, POL} \/ d # "ujkl") => Delta(a, d) = 0
       /\ n \in DOMAIN names' /\ names'[n].owner = l.s
